@@ -389,13 +389,14 @@ def check_normalize(ctx, obs, T, text, i):
     from sqlglot.errors import SqlglotError
     from sqlglot.optimizer.normalize import normalize
 
-    for dnf in (False, True):
-        case = {"expr": text, "dnf": dnf}
+    # default budget, and small budgets (the rule gives up half way and must then hand back the input unchanged)
+    for dnf, budget in ((False, None), (True, None), (False, (2, 3, 4, 6, 8, 16)[i % 6]), (True, (2, 3, 4, 6, 8, 16)[(i + 1) % 6])):
+        case = {"expr": text, "dnf": dnf, "max_distance": budget}
         obs.pairs = []
         try:
             tree = sqlglot.parse_one(text, read="duckdb")
             src = tree.sql(dialect="duckdb")
-            out = normalize(tree.copy(), dnf=dnf)
+            out = normalize(tree.copy(), dnf=dnf) if budget is None else normalize(tree.copy(), dnf=dnf, max_distance=budget)
             after = out.sql(dialect="duckdb")
         except SqlglotError:
             continue
@@ -448,6 +449,25 @@ def worker(ctx):
         check_expr(ctx, obs, T, text, i, opts, typed, rng.choice(flag_dialects))
         if i % 3 == 0:
             check_normalize(ctx, obs, T, text, i)
+    # deep connector trees over a few atoms, normalised under small budgets: the distance estimate lets them in and a
+    # nested distribution step gives up later - the input must then come back unchanged
+    atoms = ["p", "q", "a = 1", "b = 2", "a < b", "p IS NULL", "a IN (1, 2)", "NOT q"]
+
+    def conn(rng, d):
+        if d <= 0 or rng.random() < 0.15:
+            return rng.choice(atoms)
+        op = rng.choice([" AND ", " OR "])
+        return "(" + op.join(conn(rng, d - 1) for _ in range(rng.choice([2, 2, 3]))) + ")"
+
+    for i in ctx.mine(SPEC[ctx.tier]["exprs"] // 4):
+        if ctx.expired():
+            break
+        rng = ctx.case_rng(7_000_000 + i)
+        text = conn(rng, rng.randint(3, 4))[1:-1] if True else ""
+        if T.differ(text, text)[0] == "rejected":
+            continue
+        ctx.count("deep_connector_trees")
+        check_normalize(ctx, obs, T, text, i)
     ctx.extra["calls"] = dict(obs.calls)
 
 
